@@ -307,6 +307,15 @@ pub fn huge_line_cases() -> Vec<TextCase> {
     let a: String = (0..60_000).map(line).collect();
     let b: String = (0..27_000).map(line).chain((0..6_000).map(|i| format!("other {:07}\n", i))).chain((33_000..60_000).map(line)).collect();
     out.push(TextCase { old: BStr(a.into_bytes()), new: BStr(b.into_bytes()), tok: 0, alg: 1, bytes: true, opt: 0 });
+    // a common head and tail around 1100 x 1100 unrelated distinct lines (an LCS table of more than
+    // 2^20 cells; a shortest script of 2200 edits), once per algorithm
+    for alg in 0..3u8 {
+        let head = "head 1\nhead 2\nhead 3\n";
+        let tail = "tail 1\ntail 2\n";
+        let a: String = std::iter::once(head.to_string()).chain((0..1100).map(|i| format!("old {:05}\n", i))).chain(std::iter::once(tail.to_string())).collect();
+        let b: String = std::iter::once(head.to_string()).chain((0..1100).map(|i| format!("new {:05}\n", i))).chain(std::iter::once(tail.to_string())).collect();
+        out.push(TextCase { old: BStr(a.into_bytes()), new: BStr(b.into_bytes()), tok: 0, alg, bytes: alg == 1, opt: 0 });
+    }
     out
 }
 
@@ -380,4 +389,118 @@ pub fn exercise<'a, T: similar::DiffableStr + ?Sized + 'a>(d: &'a TextDiff<'a, '
             }
         }
     }
+}
+
+/// Every std consumer an `Iterator` offers must agree with the plain `next()` walk `want`, also on
+/// an iterator that was advanced by hand first: the crate's iterators may override any of them
+/// (count, last, nth, fold, size_hint ...), and callers use them directly.  `mk` makes a fresh
+/// iterator, `tup` turns an item into a comparable value; `j0` is one more hand-advance distance.
+/// The methods are called on the crate's iterator ITSELF (no map() in front, which would route
+/// count/last through fold and hide an override).
+pub fn consumers_agree<I, X, F, G>(what: &str, mk: F, tup: G, want: &[X], j0: usize) -> Result<(), String>
+where
+    I: Iterator,
+    F: Fn() -> I,
+    G: Fn(I::Item) -> X,
+    X: PartialEq + std::fmt::Debug + Clone,
+{
+    let n = want.len();
+    let mut js = vec![0usize, 1, 2, j0 % (n + 1), n.saturating_sub(1), n];
+    js.dedup();
+    for j in js {
+        let j = j.min(n);
+        let advanced = || {
+            let mut it = mk();
+            for _ in 0..j {
+                it.next();
+            }
+            it
+        };
+        let rest = &want[j..];
+        let ctx = |m: &str| format!("{}: after {} next() calls, {}", what, j, m);
+        let (lo, hi) = advanced().size_hint();
+        if lo > rest.len() || hi.map_or(false, |h| h < rest.len()) {
+            return Err(ctx(&format!("size_hint {:?} does not bracket the {} remaining items", (lo, hi), rest.len())));
+        }
+        let c = advanced().count();
+        if c != rest.len() {
+            return Err(ctx(&format!("count() = {}, expected {}", c, rest.len())));
+        }
+        let l = advanced().last().map(&tup);
+        if l.as_ref() != rest.last() {
+            return Err(ctx(&format!("last() = {:?}, expected {:?}", l, rest.last())));
+        }
+        for k in [0usize, 1, 3, rest.len().saturating_sub(1), rest.len()] {
+            let mut it = advanced();
+            let g = it.nth(k).map(&tup);
+            if g.as_ref() != rest.get(k) {
+                return Err(ctx(&format!("nth({}) = {:?}, expected {:?}", k, g, rest.get(k))));
+            }
+            // and the walk goes on right behind it
+            let g2 = it.next().map(&tup);
+            if k < rest.len() && g2.as_ref() != rest.get(k + 1) {
+                return Err(ctx(&format!("next() after nth({}) = {:?}, expected {:?}", k, g2, rest.get(k + 1))));
+            }
+        }
+        let folded = advanced().fold(vec![], |mut v, c| {
+            v.push(tup(c));
+            v
+        });
+        if folded[..] != *rest {
+            return Err(ctx(&format!("fold() yields {:?}, expected {:?}", folded, rest)));
+        }
+        let mut each = vec![];
+        advanced().for_each(|c| each.push(tup(c)));
+        if each[..] != *rest {
+            return Err(ctx(&format!("for_each() yields {:?}, expected {:?}", each, rest)));
+        }
+        let collected: Vec<I::Item> = advanced().collect();
+        let collected: Vec<X> = collected.into_iter().map(&tup).collect();
+        if collected[..] != *rest {
+            return Err(ctx(&format!("collect() yields {:?}, expected {:?}", collected, rest)));
+        }
+        let skipped: Vec<I::Item> = advanced().skip(1).collect();
+        let skipped: Vec<X> = skipped.into_iter().map(&tup).collect();
+        if skipped[..] != rest[1.min(rest.len())..] {
+            return Err(ctx(&format!("skip(1) yields {:?}", skipped)));
+        }
+        let stepped: Vec<I::Item> = advanced().step_by(2).collect();
+        let stepped: Vec<X> = stepped.into_iter().map(&tup).collect();
+        let want_stepped: Vec<X> = rest.iter().step_by(2).cloned().collect();
+        if stepped != want_stepped {
+            return Err(ctx(&format!("step_by(2) yields {:?}, expected {:?}", stepped, want_stepped)));
+        }
+        let mut it = advanced();
+        let head: Vec<I::Item> = it.by_ref().take(2).collect();
+        let tail: Vec<I::Item> = it.collect();
+        let both: Vec<X> = head.into_iter().chain(tail).map(&tup).collect();
+        if both[..] != *rest {
+            return Err(ctx(&format!("by_ref().take(2) then the rest yields {:?}, expected {:?}", both, rest)));
+        }
+        let mut pk = advanced().peekable();
+        let _ = pk.peek();
+        let pc = pk.count();
+        if pc != rest.len() {
+            return Err(ctx(&format!("a peeked Peekable counts {}, expected {}", pc, rest.len())));
+        }
+        let mut pk = advanced().peekable();
+        let _ = pk.peek();
+        let pl = pk.last().map(&tup);
+        if pl.as_ref() != rest.last() {
+            return Err(ctx(&format!("a peeked Peekable's last() = {:?}, expected {:?}", pl, rest.last())));
+        }
+        let pos = advanced().position(|_| false);
+        if pos.is_some() {
+            return Err(ctx("position(never) found something"));
+        }
+        // an exhausted iterator stays exhausted for the consumers
+        let mut it = advanced();
+        for _ in 0..rest.len() {
+            it.next();
+        }
+        if it.next().is_some() {
+            return Err(ctx("next() yields an item after the walk ended"));
+        }
+    }
+    Ok(())
 }
